@@ -417,7 +417,7 @@ Proof. intro H. rewrite <- (firstn_skipn n l). apply in_or_app. right. exact H. 
 
 (** the copy-out of carquet_read_next_page, repaired version: the next [t] rows of the current page *)
 Lemma copy_from_page_spec st1 pos mx :
-  Inv st1 pos -> cs_loaded st1 = true -> (cs_pread st1 < cs_pnum st1)%nat -> 0 <= mx < 2^31 ->
+  Inv st1 pos -> cs_loaded st1 = true -> (cs_pread st1 < cs_pnum st1)%nat -> 0 <= mx ->
   let t := Nat.min (Z.to_nat mx) (cs_pnum st1 - cs_pread st1) in
   let lv := firstn t (skipn pos L) in
   exists st',
@@ -432,11 +432,17 @@ Proof.
   assert (Htot : total = (total_rows before + length (pg_levels p) + total_rows after)%nat).
   { rewrite E at 1. rewrite total_rows_app, total_rows_cons. lia. }
   assert (Ht : (cs_pread st1 + t <= length (pg_levels p))%nat) by (subst t; lia).
-  unfold copy_from_page. rewrite (i32_small mx) by lia.
+  unfold copy_from_page. cbn [andb].
   set (avail := Z.of_nat (cs_pnum st1 - cs_pread st1)).
-  assert (Etc : (if mx >? avail then avail else mx) = Z.of_nat t).
-  { subst t avail. destruct (mx >? Z.of_nat (cs_pnum st1 - cs_pread st1)) eqn:Eg; lia. }
-  rewrite Etc. destruct (Z.of_nat t <? 0) eqn:Eneg; [lia|]. rewrite Nat2Z.id.
+  assert (Etc : (if mx <? avail then mx else avail) = Z.of_nat t).
+  { subst t avail. destruct (mx <? Z.of_nat (cs_pnum st1 - cs_pread st1)) eqn:Eg; lia. }
+  rewrite Etc.
+  destruct (Z.of_nat t <=? 0) eqn:Ez.
+  { (* nothing asked for (peek): nothing changes *)
+    assert (Ht0 : t = O) by lia. subst lv. rewrite Ht0. exists st1. rewrite Nat.add_0_r.
+    split; [reflexivity|]. split; [|split; [exact El|lia]].
+    unfold Inv. rewrite El. repeat split; try assumption. exists before, p, after. repeat split; assumption. }
+  destruct (Z.of_nat t <? 0) eqn:Eneg; [lia|]. rewrite Nat2Z.id.
   rewrite copy_out_ok by (rewrite Hdl, dec_levels_length; lia).
   rewrite Hdl. rewrite (window_levels before p after _ _ E Ht). rewrite <- Hpos. fold lv.
   rewrite Hmd. cbn [andb].
@@ -476,7 +482,7 @@ Qed.
 (** one call of carquet_read_next_page with rows left: at least one row if one is asked for, never more
     than asked for, never past the end of the chunk, always the next rows of the flat streams *)
 Lemma read_next_page_spec st pos mx :
-  Inv st pos -> (pos < total)%nat -> 0 <= mx < 2^31 ->
+  Inv st pos -> (pos < total)%nat -> 0 <= mx ->
   exists st' t,
     let lv := firstn t (skipn pos L) in
     read_next_page garbage true st mx =
@@ -561,7 +567,7 @@ Proof.
 Qed.
 
 Lemma rb_loop_spec fuel : forall st p0 tr K wd,
-  Inv st (p0 + tr) -> (tr <= K)%nat -> Z.of_nat K < 2^31 -> (K - tr < fuel)%nat ->
+  Inv st (p0 + tr) -> (tr <= K)%nat -> (K - tr < fuel)%nat ->
   let c := Nat.min K (total - p0) in
   exists st',
     rb_loop garbage true fuel st (Z.of_nat K) wd (Z.of_nat tr) (Z.of_nat (count (segL p0 tr)))
@@ -570,13 +576,13 @@ Lemma rb_loop_spec fuel : forall st p0 tr K wd,
                 br_dense := Z.of_nat (count (segL p0 c)) |}) /\
     Inv st' (p0 + c).
 Proof.
-  induction fuel as [|fuel IH]; intros st p0 tr K wd HI Htr HK Hfuel c; [lia|].
+  induction fuel as [|fuel IH]; intros st p0 tr K wd HI Htr Hfuel c; [lia|].
   pose proof HI as (Hpg & Hmd & Hzc & Hle & Hrem & _).
   cbn [rb_loop]. rewrite Hrem.
   destruct ((Z.of_nat tr <? Z.of_nat K) && (Z.of_nat (total - (p0 + tr)) >? 0)) eqn:Econd.
   - (* one more page read *)
     assert (Hlt : (p0 + tr < total)%nat) by lia.
-    assert (Hmx : 0 <= Z.of_nat K - Z.of_nat tr < 2^31) by lia.
+    assert (Hmx : 0 <= Z.of_nat K - Z.of_nat tr) by lia.
     destruct (read_next_page_spec st (p0 + tr) _ HI Hlt Hmx) as (st1 & t & Er & HI1 & _ & Hle1 & Htm & Htp).
     cbn zeta in Er. rewrite Er. cbn [pr_vals pr_levels pr_rows pr_dense].
     assert (Ht1 : (0 < t)%nat) by (apply Htp; lia).
@@ -615,7 +621,7 @@ Proof. reflexivity. Qed.
 
 (** carquet_column_read_batch with max_values > 0: exactly min(max_values, remaining) rows, the next ones *)
 Lemma read_batch_spec st pos k wd :
-  Inv st pos -> 0 < k < 2^31 ->
+  Inv st pos -> 0 < k ->
   let K := Z.to_nat k in
   let c := Nat.min K (total - pos) in
   exists st',
@@ -634,7 +640,7 @@ Proof.
     unfold lpad. destruct wd; [|reflexivity]. cbn [app length]. rewrite Nat.sub_0_r. reflexivity.
   - assert (HI0 : Inv st (pos + 0)) by (rewrite Nat.add_0_r; exact HI).
     assert (HK : Z.of_nat K = k) by (subst K; lia).
-    destruct (rb_loop_spec (S K) st pos O K wd HI0 ltac:(lia) ltac:(lia) ltac:(lia)) as (st' & Er & HI').
+    destruct (rb_loop_spec (S K) st pos O K wd HI0 ltac:(lia) ltac:(lia)) as (st' & Er & HI').
     exists st'. split; [|exact HI'].
     rewrite segL_0, segV_0, vpad_nil in Er. cbn [count_present] in Er. rewrite HK in Er.
     replace (lpad wd K []) with (if wd then repeat garbage_level K else @nil N) in Er
@@ -658,7 +664,7 @@ Qed.
 
 (* ------------------------------------------------------------------ carquet_column_skip *)
 
-Lemma skip_chunk_bounds : 0 < Reader_skip_chunk < 2^31.
+Lemma skip_chunk_bounds : 0 < Reader_skip_chunk.
 Proof. unfold Reader_skip_chunk. lia. Qed.
 
 Lemma skip_loop_spec fuel : forall st p0 sk k,
@@ -672,7 +678,7 @@ Proof.
   destruct ((Z.of_nat sk <? k) && (Z.of_nat (total - (p0 + sk)) >? 0)) eqn:Econd.
   - pose proof skip_chunk_bounds as Hch.
     set (ts := if k - Z.of_nat sk >? Reader_skip_chunk then Reader_skip_chunk else k - Z.of_nat sk).
-    assert (Hts : 0 < ts < 2^31) by (subst ts; destruct (k - Z.of_nat sk >? Reader_skip_chunk) eqn:Eg; lia).
+    assert (Hts : 0 < ts) by (subst ts; destruct (k - Z.of_nat sk >? Reader_skip_chunk) eqn:Eg; lia).
     destruct (read_batch_spec st (p0 + sk) ts false HI Hts) as (st1 & Er & HI1).
     cbn zeta in Er. rewrite Er. cbn [br_ret].
     set (c1 := Nat.min (Z.to_nat ts) (total - (p0 + sk))) in *.
@@ -702,7 +708,7 @@ Qed.
 (* ------------------------------------------------------------------ histories *)
 
 Definition op_ok (o : op) : Prop :=
-  match o with Read k | ReadNoDef k | Skip k => 0 <= k < 2^31 | _ => True end.
+  match o with Read k | ReadNoDef k | Skip k => 0 <= k | _ => True end.
 
 Notation rows := (rows_of garbage max_def pages).
 
